@@ -56,6 +56,11 @@ def run(ctx):
         longs.append({"k": "data", "mn": mn, "items": its})
     orgs = [0x7c00] if quick else [0x7c00, 0, 0x280000]
     ncells = 0
+    if quick:   # label values beyond 16 bits: the single-item lists once more at a high origin
+        l1 = [c for c in lists if len(c["items"]) == 1]
+        for stmts, _ in flow.batch_cells(l1, 8, org=0x280000, prefix=PREFIX):
+            R.add(stmts)
+        ncells += len(l1)
     for org in orgs:
         for stmts, _ in flow.batch_cells(lists + longs + resb, 8, org=org, prefix=PREFIX):
             R.add(stmts)
